@@ -297,6 +297,30 @@ theorem nextPartitionRR_congr {m1 m2 : PMap} {t : String} (ps : List Int) (start
       · simp only [hr]
       · rw [PMap.get_set_same, PMap.get_set_same]
 
+/-- A RAISING call for another topic leaves topic `t`'s partitioner untouched. -/
+theorem nextPartitionRRAfterError_other (m : PMap) {t t' : String} (ps : List Int) (start : Option Nat)
+    (hne : t ≠ t') : (nextPartitionRRAfterError m t' ps start).get t = m.get t := by
+  unfold nextPartitionRRAfterError
+  cases m.get t' with
+  | some st => exact PMap.get_set_other _ _ _ _ hne
+  | none =>
+    cases setPartitions ps start with
+    | none => rfl
+    | some st => exact PMap.get_set_other _ _ _ _ hne
+
+/-- What a RAISING call for topic `t` leaves for `t` depends only on `t`'s own partitioner. -/
+theorem nextPartitionRRAfterError_congr {m1 m2 : PMap} {t : String} (ps : List Int) (start : Option Nat)
+    (h : m1.get t = m2.get t) :
+    (nextPartitionRRAfterError m1 t ps start).get t = (nextPartitionRRAfterError m2 t ps start).get t := by
+  unfold nextPartitionRRAfterError
+  rw [h]
+  cases m2.get t with
+  | some st => rw [PMap.get_set_same, PMap.get_set_same]
+  | none =>
+    cases setPartitions ps start with
+    | none => exact h
+    | some st => rw [PMap.get_set_same, PMap.get_set_same]
+
 /-- Isolation: the selections made for topic `t` under ANY interleaving with calls for other topics
     are exactly those made when only `t`'s calls are executed. -/
 theorem picksOf_filter (t : String) (m1 m2 : PMap) (h : m1.get t = m2.get t) (cs : List Call) :
@@ -310,14 +334,15 @@ theorem picksOf_filter (t : String) (m1 m2 : PMap) (h : m1.get t = m2.get t) (cs
       rw [hf]
       simp only [picksOf, hc]
       rcases nextPartitionRR_congr c.ps c.start h with ⟨h1, h2⟩ | ⟨x, m1', m2', h1, h2, h3⟩
-      · rw [h1, h2]; simp only [if_true]; rw [ih m1 m2 h]
+      · rw [h1, h2]; simp only [if_true]
+        rw [ih _ _ (hc ▸ nextPartitionRRAfterError_congr c.ps c.start (hc ▸ h))]
       · rw [h1, h2]; simp only [if_true]; rw [ih m1' m2' h3]
     · have hf : (c :: cs).filter (fun c => c.topic = t) = cs.filter (fun c => c.topic = t) := by
         simp [hc]
       rw [hf]
       simp only [picksOf, hc, if_false, List.nil_append]
       cases hn : nextPartitionRR m1 c.topic c.ps c.start with
-      | none => exact ih m1 m2 h
+      | none => exact ih _ m2 (by rw [nextPartitionRRAfterError_other m1 c.ps c.start (Ne.symm hc)]; exact h)
       | some r =>
         obtain ⟨x, m'⟩ := r
         exact ih m' m2 (by rw [nextPartitionRR_other hn (Ne.symm hc)]; exact h)
